@@ -51,6 +51,10 @@ fn cycle_refs<T>(this: Link<T>) -> HashMap<Link<T>, usize> {
     while let Some(node) = discovered.pop() {
         #[cfg(cactusref_verif)]
         crate::verif::count_trace_pop();
+        // An object can be discovered through a forward link and through a
+        // loopback link. Track visits per allocation, not per link kind, so the
+        // adoptions of an object are counted exactly once.
+        let node = node.as_forward();
         if visited.contains(&node) {
             continue;
         }
